@@ -191,7 +191,24 @@ func (g *gctx) genV2() map[string]any {
 			p["proposer"] = g.key()
 		case k < 19:
 			pat := patterns[r.Intn(len(patterns))]
+			if r.Chance(1, 2) {
+				var shape string
+				pat, shape = composedPattern(r)
+				g.col.Count("pattern-shape:" + shape)
+				g.tags["pattern-composed"] = true
+				if strings.Contains(shape, "groups-both-ends") {
+					g.tags["pattern-groups-both-ends"] = true
+				}
+				if strings.Contains(pat, `\`) {
+					g.tags["pattern-escapes"] = true
+				}
+			} else {
+				g.col.Count("pattern-shape:fixed-list")
+			}
 			p["proposer"] = pat
+			if strings.HasPrefix(pat, "^") && strings.HasSuffix(pat, "$") {
+				g.tags["pattern-anchored-by-author"] = true
+			}
 			if strings.Contains(pat, "|") && !strings.Contains(pat, "(") {
 				g.tags["alternation"] = true
 			}
@@ -509,6 +526,13 @@ func (g *gctx) validators(selectors []string) []Validator {
 			if strings.HasPrefix(sel, "0x") {
 				if len(sel) == 98 {
 					v.Pubkey = sel
+				}
+			} else if r.Chance(1, 3) {
+				// a name on which a misreading of the pattern (anchors or wrapper lost, added or
+				// confused) differs from its documented meaning
+				if w, a, ok := nearMiss(r, sel); ok {
+					v.Kind, v.Wallet, v.Account = "wallet", w, a
+					g.col.Count("validator:aimed-near-miss")
 				}
 			} else if re, err := regexp.Compile(documented(sel)); err == nil {
 				// a name of the universe that the pattern matches, if there is one
